@@ -221,6 +221,22 @@ def check_mesh(ctx, name, mesh, fixed, with_model=True):
             fail("cov_hermitian_in_use", dict(update=k_, defect=r))
         ctx.case((name, "in_use", k_), nontrivial=k_ > 0)
 
+    # terminal sites present but psi left free there (terminal_psi=None): every row of the covariant Laplacian is a
+    # Laplacian row -- the operator in use is the very operator of the terminal-free mesh, Hermitian included
+    if fixed is not None:
+        mof = built_operators(ctx, mesh, fixed, False)
+        for k_ in range(3):
+            Ak = rng.normal(size=(E, 2)) * (0.0 if k_ == 0 else 1.5)
+            mof.set_link_exponents(Ak)
+            mo.set_link_exponents(Ak)
+            Hk = (sp.diags(a) @ mof.psi_laplacian).toarray()
+            r = max(relerr(Hk - Hk.conj().T, np.abs(Hk).max()), relerr((sp.csr_matrix(mof.psi_laplacian) - sp.csr_matrix(mo.psi_laplacian)).toarray(), np.abs(Hk).max()),
+                    relerr((sp.csr_matrix(mof.psi_gradient) - sp.csr_matrix(mo.psi_gradient)).toarray(), 1.0))
+            ctx.tol("aL^A hermitian / equal to the terminal-free operator (free terminals, operators in use)", r, 1e-9)
+            if r > 1e-9:
+                fail("cov_hermitian_in_use:free_terminals", dict(update=k_, defect=r))
+            ctx.case((name, "in_use_free_terminals", k_), nontrivial=k_ > 0)
+
     # the scalar operators in use (with and without terminal sites): Laplacian = divergence o gradient,
     # area-weighted symmetric, annihilates the constants
     # ... whichever linear solver the operators are prepared for (building them for PARDISO needs no optional package;
